@@ -29,7 +29,7 @@ class compact_vector {
 
         m_size = vec.size();
         m_bits = needed_bits(*std::max_element(vec.begin(), vec.end()));
-        m_mask = (1ULL << m_bits) - 1;
+        m_mask = (m_bits < 64) ? (1ULL << m_bits) - 1 : ~0ULL;
 
         std::vector<std::uint64_t> chunks(words_for(m_size * m_bits));
 
